@@ -184,9 +184,13 @@ def run_case(base, case, acc, force_dense=False):
             acc.count("histories_tainted_by_known_optlang_mechanism")
         # a reaction that is outside the model was edited while a context is open: the edit is nobody's to
         # undo, but undo entries recorded earlier in that block may still speak about the reaction
-        if name.startswith("detached.") and exc is None and H.entered and isinstance(desc, dict) and name != "detached.copy":
+        if name.startswith("detached.") and exc is None and H.entered and isinstance(desc, dict) and desc.get("what") == ["*=-1"]:
+            # only edits of the detached reaction's *stoichiometry* invalidate the relative undo entries; bounds, knock-outs
+            # and rules of a detached reaction are absolute values and must come back right (seeded changes C01-r2-2, C02-r2-1)
             state.setdefault("detached_edits", []).append((desc.get("id"), len(H.entered)))
-        if name == "ctx.exit" and exc is not None and not state.get("tainted") and isinstance(desc, dict):
+        if name == "ctx.exit" and not state.get("tainted") and isinstance(desc, dict):
+            # (whether or not the exit raises: with another sign pattern the relative undo "succeeds" and leaves the
+            # reaction with a metabolite whose creation has been undone - thorough tier, seed 4, seen by C02)
             left = desc.get("depth", 0) + 1  # the block that has just been left
             if any(d >= left for _rid, d in state.get("detached_edits", [])):
                 state["tainted"] = "C01/ctx.exit/raised/reaction-edited-outside-the-model-while-its-undo-entries-were-pending"
